@@ -601,7 +601,7 @@ PENDING_REASON = "no static check is registered for this property yet (rules des
 
 # sentences for rules added after the level texts above were written; appended to the claimed level
 EXTRA = {
-    "C23": "C23.parse also reads hexadecimal / octal / binary / underscored int spellings and interprets the write half set_literal_value over the value partition; C23.escape: no read of a string node's raw_value where its value is needed; a tuple written without parentheses stays a valid literal when mutation empties it.",
+    "C23": "C23.parse also reads hexadecimal / octal / binary / underscored int spellings and interprets the write half set_literal_value over the value partition; C23.escape: no read of a string node's raw_value where its value is needed; a tuple written without parentheses stays a valid literal when mutation empties it; C23.hashable: only hashable bindings are offered as elements of a set.",
     "C24": "C24.escape (raw_value); C24.seed-file interprets _read_module_source over every order of a directory listing (byte code in __pycache__, test files of modules whose name contains this one).",
     "C27": "C27.lambda interprets _get_lambda_assigned_name over single-line, parenthesised and continued module-level lambdas; C27.members interprets the member collection with the real inspect / enum modules over a plain and an enum class.",
     "C28": "C28.splice (must-pass): both _generic_visit_* generators write the mutated child into the parent before every yield.",
